@@ -14,7 +14,8 @@ import Gws.Model.ReaderStep
 namespace TransEquiv
 
 theorem setThreshold_eq (isServer : Bool) (p : Nego.PD) :
-    Trans.PermessageDeflate_setThreshold isServer p.serverTakeover p.clientTakeover p.threshold
+    Trans.PermessageDeflate_setThreshold isServer (c_ServerContextTakeover := p.serverTakeover) (c_ClientContextTakeover := p.clientTakeover)
+        (c_Threshold := p.threshold)
       = (Nego.setThreshold isServer p).threshold := by
   unfold Trans.PermessageDeflate_setThreshold Nego.setThreshold
   cases isServer <;> cases p.serverTakeover <;> cases p.clientTakeover <;> simp
@@ -22,7 +23,11 @@ theorem setThreshold_eq (isServer : Bool) (p : Nego.PD) :
 /-- the server's compression settings after `initServerOption`: bits and threshold are those of `Nego.normServer`
 (`level`, `poolSize` are not part of the negotiation model) -/
 theorem initServerOption_pd_eq (p : Nego.PD) (level poolSize pow2 : Int) :
-    ∃ lvl ps, Trans.initServerOption_pd p.enabled p.serverBits p.clientBits p.threshold level poolSize p.serverTakeover p.clientTakeover pow2
+    ∃ lvl ps, Trans.initServerOption_pd (c_PermessageDeflate_Enabled := p.enabled) (c_PermessageDeflate_ServerMaxWindowBits := p.serverBits)
+        (c_PermessageDeflate_ClientMaxWindowBits := p.clientBits) (c_PermessageDeflate_Threshold := p.threshold)
+        (c_PermessageDeflate_Level := level) (c_PermessageDeflate_PoolSize := poolSize)
+        (c_PermessageDeflate_ServerContextTakeover := p.serverTakeover) (c_PermessageDeflate_ClientContextTakeover := p.clientTakeover)
+        (poolSizePow2 := pow2)
       = .ok ((Nego.normServer p).clientBits, lvl, ps, (Nego.normServer p).serverBits, (Nego.normServer p).threshold) := by
   unfold Trans.initServerOption_pd Nego.normServer
   cases p.enabled
@@ -32,7 +37,9 @@ theorem initServerOption_pd_eq (p : Nego.PD) (level poolSize pow2 : Int) :
     congr 2 <;> simp [Bool.or_eq_true, decide_eq_true_eq]
 
 theorem initClientOption_pd_eq (p : Nego.PD) (level poolSize : Int) :
-    ∃ lvl ps, Trans.initClientOption_pd p.enabled p.serverBits p.clientBits p.threshold level poolSize
+    ∃ lvl ps, Trans.initClientOption_pd (c_PermessageDeflate_Enabled := p.enabled) (c_PermessageDeflate_ServerMaxWindowBits := p.serverBits)
+        (c_PermessageDeflate_ClientMaxWindowBits := p.clientBits) (c_PermessageDeflate_Threshold := p.threshold)
+        (c_PermessageDeflate_Level := level) (c_PermessageDeflate_PoolSize := poolSize)
       = .ok ((Nego.normClient p).clientBits, lvl, ps, (Nego.normClient p).serverBits, (Nego.normClient p).threshold) := by
   unfold Trans.initClientOption_pd Nego.normClient
   cases p.enabled
@@ -43,18 +50,27 @@ theorem initClientOption_pd_eq (p : Nego.PD) (level poolSize : Int) :
 
 /-- after `initServerOption` the limits are positive, whatever the application configured -/
 theorem initServerOption_limits_pos (r g rb w wb : Int) :
-    ∃ g' rb' r' wb' w', Trans.initServerOption_limits r g rb w wb = .ok (g', rb', r', wb', w') ∧ 0 < r' ∧ 0 < w' ∧ 0 < g'
+    ∃ g' rb' r' wb' w', Trans.initServerOption_limits (c_ReadMaxPayloadSize := r) (c_ParallelGolimit := g) (c_ReadBufferSize := rb)
+        (c_WriteMaxPayloadSize := w) (c_WriteBufferSize := wb)
+        = .ok (g', rb', r', wb', w') ∧ 0 < r' ∧ 0 < w' ∧ 0 < g'
       ∧ (0 < r → r' = r) ∧ (r ≤ 0 → r' = Facts.defaultReadMaxPayloadSize) := by
   unfold Trans.initServerOption_limits
   refine ⟨_, _, _, _, _, rfl, ?_, ?_, ?_, ?_, ?_⟩ <;> simp only [decide_eq_true_eq, Facts.defaultReadMaxPayloadSize] <;> split <;> omega
 
 theorem initClientOption_limits_pos (r g rb w wb : Int) :
-    ∃ g' rb' r' wb' w', Trans.initClientOption_limits r g rb w wb = .ok (g', rb', r', wb', w') ∧ 0 < r' ∧ 0 < w' ∧ 0 < g'
+    ∃ g' rb' r' wb' w', Trans.initClientOption_limits (c_ReadMaxPayloadSize := r) (c_ParallelGolimit := g) (c_ReadBufferSize := rb)
+        (c_WriteMaxPayloadSize := w) (c_WriteBufferSize := wb)
+        = .ok (g', rb', r', wb', w') ∧ 0 < r' ∧ 0 < w' ∧ 0 < g'
       ∧ (0 < r → r' = r) ∧ (r ≤ 0 → r' = Facts.defaultReadMaxPayloadSize) := by
   unfold Trans.initClientOption_limits
   refine ⟨_, _, _, _, _, rfl, ?_, ?_, ?_, ?_, ?_⟩ <;> simp only [decide_eq_true_eq, Facts.defaultReadMaxPayloadSize] <;> split <;> omega
 
-example : Trans.initServerOption_pd true 3 20 0 0 0 true false 32 = .ok (15, 1, 32, 12, 512) := by rfl
-example : Trans.initServerOption_limits (-5) 0 0 70000 1 = .ok (8, 4096, 16777216, 1, 70000) := by rfl
+example : Trans.initServerOption_pd (c_PermessageDeflate_Enabled := true) (c_PermessageDeflate_ServerMaxWindowBits := 3)
+    (c_PermessageDeflate_ClientMaxWindowBits := 20) (c_PermessageDeflate_Threshold := 0)
+    (c_PermessageDeflate_Level := 0) (c_PermessageDeflate_PoolSize := 0)
+    (c_PermessageDeflate_ServerContextTakeover := true) (c_PermessageDeflate_ClientContextTakeover := false)
+    (poolSizePow2 := 32) = .ok (15, 1, 32, 12, 512) := by rfl
+example : Trans.initServerOption_limits (c_ReadMaxPayloadSize := (-5)) (c_ParallelGolimit := 0) (c_ReadBufferSize := 0)
+    (c_WriteMaxPayloadSize := 70000) (c_WriteBufferSize := 1) = .ok (8, 4096, 16777216, 1, 70000) := by rfl
 
 end TransEquiv
